@@ -470,9 +470,14 @@ class _Gen:
     def scalar(self):
         return self.pick(SCALARS)
 
-    def target(self):
-        """Assignment / loop targets: mostly the scalar names, so that ``s`` and ``t`` usually stay sequences."""
-        return self.pick(SCALARS) if self.chance(5, 6) else self.pick(VARS)
+    def target(self, lex=None):
+        """Assignment / loop targets: mostly the scalar names, so that ``s`` and ``t`` usually stay sequences.
+        Inside a recursive loop the loop target that ``loop(...)`` descends into is never reassigned (otherwise
+        ``loop(x)`` could be handed the list it is iterating: unbounded recursion)."""
+        n = self.pick(SCALARS) if self.chance(5, 6) else self.pick(VARS)
+        if lex is not None and n == lex.rec:
+            n = [v for v in SCALARS if v != lex.rec][self.i(0, len(SCALARS) - 2)]
+        return n
 
     # -- expressions
     def atom(self, lex):
@@ -627,6 +632,8 @@ class _Gen:
                 mac = out[idx]
                 free = sorted({n for st_ in walk(mac[4]) for e in stmt_exprs(st_) for n in expr_names(e) if n in VARS} - set(mac[2]))
                 target = self.pick(free) if free and self.chance(4, 5) else self.var()
+                if target == lex.rec:
+                    target = self.target(lex)
                 out.insert(self.i(idx + 1, pos), ["set", [target], [self.expr(lex, 1)]])
         return out
 
@@ -645,11 +652,11 @@ class _Gen:
             return ["out", self.expr(lex)]
         if k == "set":
             if self.chance(1, 6):
-                t1, t2 = self.target(), self.target()
+                t1, t2 = self.target(lex), self.target(lex)
                 if t1 != t2:
                     return ["set", [t1, t2], [self.expr(lex, 1), self.expr(lex, 1)]]
                 return ["set", [t1], [self.expr(lex)]]
-            return ["set", [self.target()], [self.expr(lex)]]
+            return ["set", [self.target(lex)], [self.expr(lex)]]
         if k == "nsset":
             return ["nsset", self.ns_name(lex), self.pick(ATTRS), self.expr(lex)]
         if k == "nsnew":
@@ -670,7 +677,7 @@ class _Gen:
         if k == "with":
             binds = []
             for _ in range(self.i(0, 2)):
-                n = self.target()
+                n = self.target(lex)
                 if n not in [b[0] for b in binds]:
                     binds.append([n, self.expr(lex)])
             return ["with", binds, self.block(lex.child(), 1, 4)]
@@ -693,7 +700,7 @@ class _Gen:
         if k == "setblock":
             f = self.pick(BLOCK_FILTERS) if self.chance(1, 4) else None
             # break/continue inside a buffering block would drop the buffered output (undocumented): excluded
-            return ["setblock", self.target(), f, self.block(lex.child(loopctl=False), 1, 3)]
+            return ["setblock", self.target(lex), f, self.block(lex.child(loopctl=False), 1, 3)]
         if k == "filter":
             return ["filter", self.pick(SECTION_FILTERS), self.block(lex.child(loopctl=False), 1, 3)]
         if k == "autoescape":
